@@ -5,8 +5,11 @@
    Go                                                        model
    --                                                        -----
    d.sampleRate = d.Config.SampleRate            (int)       d_rate  : Z  (any Go int)
-   d.upperBound = math.MaxUint32 / uint32(rate)              gen_bound MAX bits rate
-        uint32(rate)  = rate mod 2^32 ; divisor 0 = runtime panic  -> None
+   d.upperBound = math.MaxUint32                             det_bound MAX bits rate
+   if uint64(rate) > math.MaxUint32 { upperBound = 0 }            uint64(rate) = rate mod 2^64
+   else if rate > 1 { upperBound = MaxUint32 / uint32(rate) }     uint32(rate) = rate mod 2^32 (exact there)
+        (Start cannot panic any more; det_start still returns an option so that a future
+         panic path would show up as None)
    if d.sampleRate <= 1 { return 1, true }                   gen_get
    v := BigEndian.Uint32(sha1(traceID+salt)[:4])             h : Z   (oracle: the harness passes the value
    return uint(rate), v <= d.upperBound                               the real hash returned, 0 <= h < 2^32)
@@ -39,9 +42,15 @@ Definition gen_get (always : Z) (le : bool) (rate bound h : Z) : Z * bool :=
 (* ---------- deterministic sampler ---------- *)
 Record det_inst := { d_rate : Z; d_bound : Z }.
 
+(* rate is a Go int (64 bits): uint64(rate) = rate mod 2^64 *)
+Definition det_bound (MAX bits rate : Z) : option Z :=
+  if MAX <? rate mod 18446744073709551616 then Some 0
+  else if 1 <? rate then gen_bound MAX bits rate
+  else Some MAX.
+
 Definition det_start (rate : Z) : option det_inst :=
-  match gen_bound GenC10.det_max GenC10.det_conv_bits rate with
-  | None => None                                   (* Start panics *)
+  match det_bound GenC10.det_max GenC10.det_conv_bits rate with
+  | None => None
   | Some b => Some {| d_rate := rate; d_bound := b |}
   end.
 
